@@ -183,7 +183,18 @@ func (g *FuncGen) heapHavoc(h *Heap, names []string) *Heap {
 	if n.havoc != nil {
 		n.havoc["$alloc"] = true
 	}
+	g.noteHavocHeap(n)
 	return n
+}
+
+// noteHavocHeap: the `global` facts in force describe package-level variables that
+// nothing but the package initialiser writes (checked), so they hold in every heap
+// version; they are restated for each version a havoc creates.
+func (g *FuncGen) noteHavocHeap(n *Heap) {
+	g.havocHeaps = append(g.havocHeaps, n)
+	for pkg := range g.globalPkgs {
+		g.eng.assertGlobals(g, pkg, n)
+	}
 }
 
 // ---------- heap map naming ----------
